@@ -145,7 +145,10 @@ def pre_compute_distance(
         for j in range(size):
             distances[i][j] = d.DISTANCES[distance](data[i], data[j])
 
-    np.savetxt(output, distances)
+    # `OPF._read_distances` parses `.csv` files with a comma delimiter and `.txt` ones with a space
+    delimiter = "," if output.split(".")[-1] == "csv" else " "
+
+    np.savetxt(output, distances, delimiter=delimiter)
 
     logger.info("Distances saved to: %s.", output)
 
